@@ -50,6 +50,7 @@ func c10Atoms() []*Node {
 		{K: KSeq},
 		{K: KIn, Not: true, Items: []Item{{Kind: 0, S: "a"}}},
 		{K: KClass, Class: "any"},
+		{K: KIn, Not: true, Items: []Item{{Kind: 0, S: "ab"}, {Kind: 0, S: "b"}}}, // a multi-byte item: near the end of input fewer bytes remain than it is long
 	}
 	for _, a := range anchorNames {
 		atoms = append(atoms, &Node{K: KAnchor, Class: a}, &Node{K: KAnchor, Class: a, Not: true})
@@ -169,7 +170,7 @@ func c10Enumerate(t *testing.T, part string, depth int, stride int) {
 	if stride > 1 {
 		kind = fmt.Sprintf("every %dth program of the enumeration of all programs", stride)
 	}
-	st := NewStats("C10", part, fmt.Sprintf(kind+" `find all P` (and, up to depth 2, `P 'b'` and three subroutine-in-loop forms) with P from the nullable-material grammar (17 atoms incl. all anchors and their negations, 11 loop heads greedy/fewest/named, or-pairs) to nesting depth %d x all %d texts of length 1..3 over {a,b,\\n}; oracle: VM instructions per Run <= %d (largest observed count reported); non-trivial = program contains a loop whose body is nullable; programs are distinct by construction", depth, len(c10Texts()), c10EnumBudget))
+	st := NewStats("C10", part, fmt.Sprintf(kind+" `find all P` (and, up to depth 2, `P 'b'` three subroutine-in-loop forms, and 72 guarded-recursion programs) with P from the nullable-material grammar (18 atoms incl. all anchors and their negations and a `not in` with a multi-byte item, 11 loop heads greedy/fewest/named, or-pairs) to nesting depth %d x all %d texts of length 1..3 over {a,b,\\n}; oracle: VM instructions per Run <= %d (largest observed count reported); non-trivial = program contains a loop whose body is nullable; programs are distinct by construction", depth, len(c10Texts()), c10EnumBudget))
 	st.Exhaustive = stride == 1
 	defer st.Write()
 	texts := c10Texts()
@@ -206,6 +207,23 @@ func c10Enumerate(t *testing.T, part string, depth int, stride int) {
 			if res.Panic != nil {
 				Fail(t, Failure{Property: "C10", Kind: "terminates", What: fmt.Sprintf("%s on %q: Run panicked: %s", src, text, res.Panic.Sig()), Case: c, Sig: res.Panic.Sig()})
 			}
+		}
+	}
+	// guarded recursion: the subroutine consumes (one of four consuming atoms) before it recurses
+	for _, x := range []*Node{{K: KLit, S: "a"}, {K: KClass, Class: "any"}, {K: KIn, Not: true, Items: []Item{{Kind: 0, S: "ab"}, {Kind: 0, S: "b"}}}, {K: KIn, Items: []Item{{Kind: 0, S: "a"}, {Kind: 0, S: "ab"}}}} {
+		call := &Node{K: KCall, S: "s"}
+		for _, rest := range []*Node{
+			{K: KLoop, Min: 0, Max: 1, Body: call},
+			{K: KLoop, Min: 0, Max: 1, Fewest: true, Body: call},
+			call,
+			{K: KOr, Kids: []*Node{call, {K: KLit, S: "b"}}},
+			{K: KOr, Kids: []*Node{{K: KLit, S: "b"}, call}},
+			{K: KLoop, Min: 0, Max: -1, Body: call},
+		} {
+			sub := &Node{K: KSub, S: "s", Kids: []*Node{x, rest}}
+			runProgram([]*Node{sub}, true)
+			runProgram([]*Node{sub, {K: KLit, S: "b"}}, true)
+			runProgram([]*Node{{K: KLoop, Min: 0, Max: -1, Body: &Node{K: KSeq, Kids: []*Node{sub}}}}, true)
 		}
 	}
 	for i, b := range bodies {
